@@ -44,7 +44,7 @@ VAL = st.one_of(st.just(0), st.integers(0, 50))
 @st.composite
 def histories(draw, viewers=False, residents=False, inc_ok=False,
               max_ticks=6, reject_ok=False, step_op_ok=True,
-              tuple_delete=False, none_ok=False, anchor_ok=False):
+              tuple_delete=False, none_ok=False, anchor_ok=False, replace_ok=False):
     counter = [0]
     graveyard = []      # keys that existed in an earlier tick and are gone now
 
@@ -155,13 +155,28 @@ def histories(draw, viewers=False, residents=False, inc_ok=False,
             elif kind == 'move':
                 p = draw(st.sampled_from(anyk))
                 k = draw(st.sampled_from(avail[p]))
-                targets = [q for q in PORTS if q != p]
+                # (a key may live in two collections after a 'replace' pair:
+                # never move a compartment onto an existing key)
+                targets = [q for q in PORTS if q != p
+                           and k not in ref.coll(model, q)]
+                if not targets:
+                    continue
                 tgt = draw(st.sampled_from(targets))
                 if tgt == 'g3' and draw(st.booleans()):
                     tgt = ['g1', 'perm', 'sub']     # extended target path
                 op = {'op': 'move', 'coll': p, 'key': k, 'target': tgt,
                       'update': ({'x': draw(st.integers(1, 9))}
                                  if draw(st.integers(0, 2)) == 0 else None)}
+                if replace_ok and k not in used and \
+                        draw(st.integers(0, 3)) == 0:
+                    # the old one leaves, a fresh one takes its place: a
+                    # _generate of the same key in the same update (moves are
+                    # carried out first)
+                    batch.append({'op': 'generate', 'coll': p, 'key': k,
+                                  'state': state(),
+                                  'resident': draw(resident_desc(inc_ok))
+                                  if residents and draw(st.booleans())
+                                  else None})
             else:
                 p = draw(st.sampled_from(anyk))
                 k = draw(st.sampled_from(avail[p]))
